@@ -235,6 +235,41 @@ def F11():
     return [] if tp == 25.0 else ["dead Converter at ta=25 reports peak temperature %s" % tp]
 
 
+def F12():
+    """C15: add_comp / change_comp warn about an ignored load rail after the edit has begun (raises under -W error)"""
+    import warnings
+    bad = []
+    s = System("t", Source("V", vo=5.0))
+    with warnings.catch_warnings():
+        warnings.simplefilter("error")
+        try:
+            s.add_comp("V", comp=PLoad("L", pwr=1.0), rail="R")
+        except UserWarning:
+            pass
+    if list(s._g.attrs["nodes"]) != ["V"]:
+        bad.append("rejected add_comp left nodes=%r rails=%r" % (list(s._g.attrs["nodes"]), s._g.attrs["rails"]))
+    s = System("t", Source("V", vo=5.0))
+    s.add_comp("V", comp=PLoad("L", pwr=1.0))
+    with warnings.catch_warnings():
+        warnings.simplefilter("error")
+        try:
+            s.change_comp("L", comp=PLoad("L2", pwr=2.0), rail="R")
+        except UserWarning:
+            pass
+    if list(s._g.attrs["nodes"]) != ["V", "L"]:
+        bad.append("rejected change_comp left nodes=%r rails=%r" % (list(s._g.attrs["nodes"]), s._g.attrs["rails"]))
+    return bad
+
+
+def F13():
+    """C14: the constructor accepts a rail named like its source"""
+    try:
+        s = System("t", Source("X", vo=5.0), rail="X")
+    except ValueError:
+        return []
+    return ["System('t', Source('X'), rail='X') accepted: rails=%r" % s._g.attrs["rails"]]
+
+
 ALL = {k: v for k, v in globals().items() if k[0] == "F" and k[1:].isdigit()}
 if __name__ == "__main__":
     rc = 0
